@@ -1026,6 +1026,10 @@ func (x *Exec) havoc(st *State, fr *Frame, eff *effects) {
 	for k := range eff.ghost {
 		if a, ok := st.ghost[k]; ok {
 			st.ghost[k] = x.E.fresh("gh"+sanitize(k), a.S)
+		} else if strings.HasPrefix(k, "ghost!") {
+			if gs, ok := x.E.ghostDecls[strings.TrimPrefix(k, "ghost!")]; ok {
+				st.ghost[k] = x.E.fresh("gh"+sanitize(k), gs)
+			}
 		}
 	}
 	nb := x.E.fresh("brk", IntS)
